@@ -798,6 +798,10 @@ class Splicer:
                 nth = int(akv.get("nth", "0"))
                 ms = list(rx.finditer(text, body_text_lo, body_text_hi))
                 if nth >= len(ms):
+                    if akv.get("optional") == "1":
+                        # a hint for a branch that does not exist in this tree (e.g. an explicit error arm): nothing to annotate
+                        self.log.append("%s: optional hint /%s/ #%d not placed (no such place in this tree)" % (key, m.group(1), nth))
+                        continue
                     raise SpliceError("lost anchor: %s: /%s/ match %d not found (%d matches)" %
                                       (key, m.group(1), nth, len(ms)))
                 if "count" in akv and int(akv["count"]) != len(ms):
